@@ -136,8 +136,9 @@ def main():
             for o in (vec_ops if kind == "vec" else ["setm", "push_back", "store", "insert"]):
                 inst.append((kind, siz, mem, num, o))
     hs = C05.histories(2 if T == "quick" else 3)
-    inst.append(("que", "B" * 9, "drop"))      # more nodes than one pool growth step: partial drop
-    inst.append(("que", "B" * 9, "setz"))
+    for hst in ("B" * 9, "B" * 9 + "f", "B" * 9 + "fb", "B" * 10 + "fff"):      # more nodes than one pool growth step, with and without recycled nodes in the pool
+        for o in ("drop", "setz", "pull_fore", "remove", "push_back"):
+            inst.append(("que", hst, o))
     for hst in hs:
         for o in ["push_fore", "push_back", "insert", "push_sort", "pull_fore", "pull_back", "remove", "drop", "setz"]:
             inst.append(("que", hst, o))
